@@ -12,7 +12,7 @@ def gen(seed, tier):
     dpat = lambda n: ','.join(['D'] * n) if n else '-'
     # ---- CTAD
     for n in range(0, 5):
-        combos = list(itertools.product(ARGT, repeat=n)); combos = combos if len(combos) <= 12 else rnd.sample(combos, 12 if not thorough else 60)
+        combos = list(itertools.product(ARGT, repeat=n)); combos = combos if len(combos) <= 12 else rnd.sample(combos, min(len(combos), 12 if not thorough else 60))
         for ts in combos:
             args = ', '.join('%s{}' % ARGT[t] if t == 'ic' else 'static_cast<%s>(2)' % ARGT[t] for t in ts)
             probes.append(('descExt<decltype(md::extents(%s))>()' % args, 'idx=u64 pat=%s' % dpat(n), 'c17 ctad extints n=%d' % n))
